@@ -89,6 +89,7 @@ def run_tlc(
     deadlock: bool = False,
     dfs_queue: bool = False,
     heap: str = "4g",
+    stack: str = "256m",
     extra: list[str] | None = None,
     must_pass: bool = True,
 ) -> TlcResult:
@@ -99,7 +100,7 @@ def run_tlc(
     counterexample pass must_pass=False and look at .violated/.out.
     """
     meta = scratch / f"meta-{spec}-{time.time_ns()}"
-    cmd = ["java", "-XX:+UseParallelGC", f"-Xmx{heap}"]
+    cmd = ["java", "-XX:+UseParallelGC", f"-Xmx{heap}", f"-Xss{stack}"]
     if dfs_queue:
         cmd.append("-Dtlc2.tool.queue.IStateQueue=StateDeque")
     cmd += ["-cp", JAR, "tlc2.TLC", "-noGenerateSpecTE", "-metadir", str(meta)]
